@@ -34,7 +34,8 @@ from .. import futil  # noqa: F401  (imports funsor from FUNSOR_REPO before c17_
 
 from .c17_rt import (FI, OPT, MODULES, named_obj, STACK, BASE, PROBES, PROBE_CLASS, OBSERVABLE, USER_LEAVES, USER_CHAINS,
                      USER_RULES, CANON, CATCHABLE, ProbeError, RealRun, probe_args, live_names, adjoint_ops,
-                     DispatchedInterpretation, PrioritizedInterpretation)
+                     DispatchedInterpretation, PrioritizedInterpretation, LEAF_PROBES, LEAF_TREES, REBUILDERS,
+                     leaf_tree_case)
 
 # --------------------------------------------------------------------------------------
 # tables read from /repo (AST + live objects) -> Gen/C17Interps.lean
@@ -560,7 +561,8 @@ def to_python(p, ind=0, lines=None, fn=None):
     elif t == "applyopt":
         lines.append(pad + "apply_optimizer(lazy_probe(%r, %r))   # armed=%r" % (p[1], p[3], bool(p[2])))
     elif t == "reinterp":
-        lines.append(pad + "reinterpret(lazy_probe(%r, %r))   # armed=%r" % (p[1], p[3], bool(p[2])))
+        fn_ = {"": "reinterpret", "s": "stack_reinterpret", "r": "recursion_reinterpret"}[p[4] if len(p) > 4 else ""]
+        lines.append(pad + "%s(lazy_probe(%r, %r))   # armed=%r" % (fn_, p[1], p[3], bool(p[2])))
     elif t == "fb":
         lines.append(pad + "forward_backward(ops.logaddexp, ops.add, lazy_probe(%r, %r))" % (p[1], p[2]))
     elif t == "seq":
@@ -834,7 +836,7 @@ class Checker:
     def class_table(self):
         """probe kind -> {result class name -> handler leaf}: measured under single-level with-blocks
         of the module-level interpretations, keyed by the handler the model predicts there."""
-        inv = {k: {} for k in PROBES + ["S"]}
+        inv = {k: {} for k in PROBES + LEAF_PROBES + ["S"]}
         clash = []
         for name in self.tb["chains"]:
             if name in ("eager_or_die",):
@@ -846,7 +848,7 @@ class Checker:
             saved = list(STACK)
             try:
                 STACK.append(obj)
-                for k in PROBES:
+                for k in PROBES + LEAF_PROBES:
                     cls, args = probe_args(k, 7)
                     r = cls(*args)
                     h = self.py.interp(i, [], k, False)
@@ -1013,7 +1015,7 @@ def candidates(p):
         for c in candidates(p[3]):
             yield ("def", p[1], p[2], c)
     elif t in ("probe", "applyopt", "reinterp") and p[2]:
-        yield (t, p[1], False, p[3])
+        yield (t, p[1], False) + tuple(p[3:])
 
 
 # --------------------------------------------------------------------------------------
@@ -1100,6 +1102,81 @@ def enumerate_hierarchy(ctx, chk, D):
                     "I:stateful-hierarchy")
 
 
+J_ALPHA = ALPHABET + ["K"]
+# family J never builds `num` probes: K's Number rule would also see the results of eager arithmetic
+J_LEAF = ([("probe", k, False, 1) for k in LEAF_PROBES]
+          + [("reinterp", k, False, 1) + w for k in LEAF_PROBES for w in ((), ("s",), ("r",))]
+          + [("applyopt", k, False, 1) for k in LEAF_PROBES]
+          + [("probe", k, False, 1) for k in ("a", "b", "bin")] + [("reinterp", "bin", False, 1, "s")])
+
+
+def prog_leaf_chain(chain, kinds, rng):
+    """family J: inside the chain, every LEAF term (Number, input-less Tensor, Tensor with inputs) is built directly
+    and re-built from a lazy copy by reinterpret / stack_reinterpret / recursion_reinterpret / apply_optimizer; a leaf
+    is re-built after every enter and after every exit too."""
+    leaf = lambda: ("reinterp", rng.choice(LEAF_PROBES), False, 1) + rng.choice([(), ("s",), ("r",)])
+    body = list(J_LEAF)
+    for i in range(len(chain) - 1, -1, -1):
+        blk = (kinds[i], chain[i], ("seq", [("obs",), leaf()] + LIGHT + body))
+        body = [blk, ("obs",), leaf()]
+    return ("seq", [("obs",)] + body)
+
+
+def prog_leaf_raise(chain, kinds, j, k, which):
+    """family J: K's rule raises while a leaf is being re-built at the innermost position; try/except around block j;
+    then the same leaf is re-built inside the surviving blocks."""
+    boom = [("reinterp", k, True, 2) + which, ("raise",)]
+    inner = nest(chain[j:], kinds[j:], boom)
+    mid = [("catch", ("seq", inner)), ("obs",), ("reinterp", k, False, 2) + which] + LIGHT
+    outer = nest(chain[:j], kinds[:j], mid, after=lambda i: [("obs",), ("reinterp", k, False, 2) + which])
+    return ("seq", outer + [("obs",)])
+
+
+def enumerate_leaf(ctx, chk, D):
+    """family J (model) + J2 (textbook rebuild): every chain of depth <= D over the alphabet + K that contains K."""
+    rng = ctx.rng
+    for k in range(1, D + 1):
+        for chain in itertools.product(J_ALPHA, repeat=k):
+            if "K" not in chain:
+                continue
+            chain = list(chain)
+            chk.add(prog_leaf_chain(chain, kinds_for(rng, k), rng), "J:leaf-terms")
+            chk.add(prog_leaf_raise(chain, kinds_for(rng, k), rng.randrange(k), rng.choice(LEAF_PROBES),
+                                    rng.choice([(), ("s",), ("r",)])), "J:leaf-terms")
+            # J2: compound terms with constant leaves; oracle = rebuilding node by node through the constructors
+            trees = list(LEAF_TREES) if k <= 2 else rng.sample(list(LEAF_TREES), 3 if k == 3 else 1)
+            for tree in trees:
+                for how in REBUILDERS:
+                    leaf_tree(ctx, chk, chain, tree, how)
+
+
+LEAF_SNIPPET = '''
+# replay for C17 (family J2): inside the nested contexts `chain`, `how`(term) must equal the term re-built node by
+# node through the constructors in the same contexts (every node, leaves included, interpreted by the innermost one).
+import sys
+sys.path.insert(0, "/verif/fv/harness")
+import c17_rt as H
+FAILS = H.leaf_tree_replay({chain!r}, {tree!r}, {how!r})
+print("FAILS =", FAILS)
+'''
+
+
+def leaf_tree(ctx, chk, chain, tree, how):
+    st, detail = leaf_tree_case(chain, tree, how)
+    ctx.count("family:J2:leaf-trees")
+    ctx.count("J2:" + st)
+    ctx.count("J2-rebuilder:" + how)
+    ctx.case(sample={"family": "J2", "chain": chain, "tree": tree, "how": how} if ctx.evaluations % 9973 == 0 else None,
+             nontrivial_key=("J2", tuple(chain), tree, how) if len(chain) >= 2 and st == "ok" else None)
+    if st == "VIOLATION":
+        chk.n_leaf_fail = getattr(chk, "n_leaf_fail", 0) + 1
+        if chk.n_leaf_fail <= 3:
+            ctx.fail("input", "C17.leaf-not-interpreted-by-innermost",
+                     witness={"family": "J2", "chain": chain, "tree": tree, "rebuilder": how},
+                     expected="the term re-built node by node in the same contexts", got=detail[:600],
+                     python=LEAF_SNIPPET.format(chain=chain, tree=tree, how=how))
+
+
 def enumerate_reuse(ctx, chk):
     for c1 in ALPHABET:
         for c2 in ALPHABET:
@@ -1166,6 +1243,11 @@ def correspond(ctx, use_driver=True, volume=1):
         chk.add(random_prog(ctx.rng, ctx.rng.choice([3, 4, 5, 6, 7]), [ctx.rng.choice([8, 14, 24])]), "C:random")
     for _ in range((300 if ctx.tier == "quick" else 3000) * volume):
         chk.add(deep_partial_prog(ctx.rng, ctx.rng.choice([6, 7, 8, 9])), "C:deep-partial")
+    # family J / J2 last: it draws from ctx.rng, and the streams of the families above stay what they were
+    for k in LEAF_PROBES:
+        if PROBE_CLASS[k] in adjoint_ops:
+            ctx.infra_errors.append(f"leaf class of probe {k!r} is an adjoint op: family J's model does not apply")
+    enumerate_leaf(ctx, chk, 3 if ctx.tier == "quick" else 4)
     chk.flush()
     ctx.coverage["exhaustive_depth"] = D
     ctx.assumptions.append("Memoize caches are modelled as explicit state keyed by the probe term; a cached funsor is "
@@ -1188,6 +1270,7 @@ def search(ctx, broken):
     enumerate_reuse(ctx, chk)
     enumerate_entry_points(ctx, chk, 2)
     enumerate_hierarchy(ctx, chk, 2)
+    enumerate_leaf(ctx, chk, 2)
     chains1 = [[]] + [[c] for c in ALPHABET]
     for s1 in chains1:
         for s2 in chains1:
